@@ -44,6 +44,12 @@ func (f *vFaultyIPT) EnsureRule(pos utiliptables.RulePosition, t utiliptables.Ta
 	}
 	return f.Interface.EnsureRule(pos, t, c, args...)
 }
+func (f *vFaultyIPT) DeleteRule(t utiliptables.Table, c utiliptables.Chain, args ...string) error {
+	if err := f.tick(); err != nil {
+		return err
+	}
+	return f.Interface.DeleteRule(t, c, args...)
+}
 func (f *vFaultyIPT) RestoreAll(data []byte, fl utiliptables.FlushFlag, cn utiliptables.RestoreCountersFlag) error {
 	if err := f.tick(); err != nil {
 		return err
@@ -67,7 +73,7 @@ func vPortReq(container, pod string) *galaxyapi.PodRequest {
 	return &galaxyapi.PodRequest{PodNamespace: "ns", PodName: pod, CmdArgs: &skel.CmdArgs{ContainerID: container}}
 }
 
-// BOUND: prior NAT table: basic chains, a foreign chain with a rule, another pod's two mappings; the pod under test has 1..2 host ports out of {39021/tcp, 39022/udp, 39023/tcp with host IP}; one iptables call of the setup may fail at a symbolic position 0..6 (0 = none); the daemon's own sequence is followed: setupPortMapping, on error cleanupPortMapping (rollback), otherwise a later DEL's cleanupPortMapping
+// BOUND: prior NAT table: basic chains, a foreign chain with a rule, another pod's two mappings; the pod under test has 1..2 host ports out of {39021/tcp, 39022/udp, 39023/tcp with host IP}; one iptables call of the setup may fail at a symbolic position 0..6 (0 = none); after a successful setup one iptables call of the teardown may fail at a symbolic position 0..3, the teardown is then repeated; the daemon's own sequence is followed: setupPortMapping, on error cleanupPortMapping (rollback), otherwise a later DEL's cleanupPortMapping
 func VerifC14_q_setupCleanInverse() {
 	fake := iptablestesting.NewFakeIPTables()
 	ipt := &vFaultyIPT{Interface: fake}
@@ -112,7 +118,15 @@ func VerifC14_q_setupCleanInverse() {
 			verifAssert("C14/setup-installs-dnat", strings.Contains(mid, fmt.Sprintf("10.0.0.7:%d", p.ContainerPort)), "a successful setup did not install the DNAT rule of a port")
 		}
 		verifAssert("C14/setup-keeps-others", strings.Contains(mid, "10.0.0.9:80") && strings.Contains(mid, "FOREIGN-CHAIN -s 192.168.0.0/16 -j RETURN"), "setting up a pod's mappings changed another pod's or a foreign rule")
-		_ = g.cleanupPortMapping(req) // the DEL
+		// the DEL; one iptables call of the teardown may fail (symbolic position 0..3, 0 = none): the DEL then fails and
+		// kubelet (or the garbage collector) repeats it
+		ipt.calls, ipt.failAt = 0, nondetInt(0, 3)
+		derr := g.cleanupPortMapping(req)
+		ipt.failAt = 0
+		if derr != nil {
+			verifReach("teardown-failed-once")
+			_ = g.cleanupPortMapping(req)
+		}
 	}
 	after := vNat(fake)
 	verifReach("cleaned")
